@@ -47,7 +47,7 @@ theorem mixed_chunking_independent {P : Bytes → Bool} {cfg : Cfg} {dv : LineDe
     exchanges took place — in particular both stop at the same interaction-complete answer), and
     leave the device at the same point of its script. -/
 theorem interact_chunking_independent {cfg : Cfg} {complete : List Bytes} (hstrict : cfg.rough = false)
-    (hret : cfg.ret = [NL]) (ps : List (Ev × Step)) (extra : List Step)
+    (hret : IsRet cfg.ret) (ps : List (Ev × Step)) (extra : List Step)
     (hg : ∀ p ∈ ps, ∃ Pr Pc, GoodStep cfg complete Pr Pc p.1 p.2)
     (res : Bytes) (hres : ∀ x ∈ res, isHws x = true) (cuts1 cuts2 : List Nat) :
     ∃ raw1 raw2 r w1 w2 d,
@@ -272,7 +272,7 @@ theorem getPrompt_after_reopen_exact {P : Bytes → Bool} {cfg : Cfg} {dv : Line
     (hout : dv.out [] = [])
     (old : Wire) (avail : Bytes) (cuts : List Nat) (hres : ∀ x ∈ avail, isHws x = true) :
     ∃ w', getPrompt cfg dv.onWrite (old.reopen avail cuts, []) = some (strip dv.prompt, (w', [])) ∧
-      w'.writes = [[NL]] ∧ w'.held = [] := by
+      w'.writes = [cfg.ret] ∧ w'.held = [] := by
   obtain ⟨w', h1, h2, _, h4⟩ := getPrompt_exact hf hfirst hout (old.reopen avail cuts) (by simpa [Wire.reopen] using hres)
     (reopen_fresh old avail cuts)
   exact ⟨w', h1, by simpa [Wire.reopen] using h2, h4⟩
